@@ -18,6 +18,14 @@ Shape of the model
   * the specification side (`violations`, `enabled`, `specEdges`) is written from the property text:
     a list of rule violations per node, which option switches which rule, and the containment relation.
 
+Ties to the code
+  * table `Gen.descent` (regenerated): edges, `validateExtensions` / `ValidateIdentifier` / `VisitJSON(default)` /
+    `validateExampleValue` calls and their option guards — consumed by `active`, `hasCheck`, `checkExt`;
+  * table `Gen.paramStyles` / `Gen.paramStyleDefaults` (regenerated): compared with `smSupported` / `smOf`
+    (the OpenAPI 3.0 style table) by `decide` in Props/C04.lean;
+  * everything hand-transcribed (the order and content of the local checks, `structGuard`) is validated by
+    the differential run against `(*openapi3.T).Validate`.
+
 What is abstracted
   * `VisitJSON` of a default / example value is modelled on the fragment "scalar value against a schema
     that constrains it by `type` / `nullable` only" (`accepts`); outside that fragment the model says
